@@ -32,8 +32,26 @@ pub struct C10;
 
 // ---------------------------------------------------------------- route syntax
 
-#[derive(Clone, Debug, PartialEq, Eq)]
+/// `Seg(kind, asns)`: kind `S`/`Q`/`C`/`D` = AS_SET / AS_SEQUENCE / confed sequence / confed set held as a
+/// `Hop::Segment` with four-octet AS numbers; the lower-case letters are the same segments with two-octet
+/// AS numbers (as read from a path received in a two-octet session).  The width is not route content.
+#[derive(Clone, Debug, Eq)]
 pub enum HopSpec { Asn(u32), Seg(char, Vec<u32>) }
+impl PartialEq for HopSpec {
+    fn eq(&self, o: &Self) -> bool {
+        match (self, o) {
+            (HopSpec::Asn(a), HopSpec::Asn(b)) => a == b,
+            (HopSpec::Seg(c, a), HopSpec::Seg(d, b)) => c.to_ascii_uppercase() == d.to_ascii_uppercase() && a == b,
+            _ => false,
+        }
+    }
+}
+impl HopSpec {
+    /// (kind in upper case, ASNs) of a segment hop
+    pub fn seg(&self) -> Option<(char, &[u32])> {
+        match self { HopSpec::Seg(c, a) => Some((c.to_ascii_uppercase(), a)), _ => None }
+    }
+}
 
 #[derive(Clone, Debug, PartialEq, Eq)]
 pub enum Slot<T> { Absent, Bogus, Val(T) }
@@ -71,7 +89,7 @@ fn opt_u32(s: &str) -> Option<Option<u32>> {
 fn parse_hop(s: &str) -> Option<HopSpec> {
     let c = s.chars().next()?;
     if c.is_ascii_digit() { return nat(s, u32::MAX as u128).map(|v| HopSpec::Asn(v as u32)); }
-    if !matches!(c, 'S' | 'Q' | 'C' | 'D') { return None; }
+    if !matches!(c, 'S' | 'Q' | 'C' | 'D' | 's' | 'q' | 'c' | 'd') { return None; }
     let rest = &s[1..];
     let mut asns = Vec::new();
     if !rest.is_empty() {
@@ -79,7 +97,9 @@ fn parse_hop(s: &str) -> Option<HopSpec> {
     }
     if asns.len() > 255 { return None; }
     // an AS_SEQUENCE segment can only be obtained from a parsed path, which has no empty segments
-    if c == 'Q' && asns.is_empty() { return None; }
+    if (c == 'Q' || c == 'q') && asns.is_empty() { return None; }
+    // two-octet segments hold two-octet AS numbers
+    if c.is_ascii_lowercase() && asns.iter().any(|a| *a > 65535) { return None; }
     Some(HopSpec::Seg(c, asns))
 }
 
@@ -147,11 +167,22 @@ fn seq_segment(asns: &[u32]) -> Segment<Vec<u8>> {
     seg.octets_into()
 }
 
+/// a segment with two-octet AS numbers, as `AsPath::new(octets, false).segments()` yields it
+fn seg16(kind: char, asns: &[u32]) -> Segment<Vec<u8>> {
+    let ty = match kind { 'S' => 1u8, 'Q' => 2, 'C' => 3, _ => 4 };
+    let mut raw = vec![ty, asns.len() as u8];
+    for a in asns { raw.extend_from_slice(&(*a as u16).to_be_bytes()); }
+    let ap = AsPath::new(raw, false).unwrap();
+    let seg = ap.segments().next().unwrap();
+    seg.octets_into()
+}
+
 fn build_hop(h: &HopSpec) -> OwnedHop {
     match h {
         HopSpec::Asn(a) => Hop::Asn(Asn::from_u32(*a)),
         HopSpec::Seg(c, asns) => {
             let it = asns.iter().map(|a| Asn::from_u32(*a));
+            if c.is_ascii_lowercase() { return Hop::Segment(seg16(c.to_ascii_uppercase(), asns)); }
             Hop::Segment(match c {
                 'S' => Segment::new_set(it),
                 'C' => Segment::new_confed_sequence(it),
@@ -241,9 +272,7 @@ fn ref_hops(r: &RouteSpec) -> &[HopSpec] { match &r.path { Slot::Val(h) => h, _ 
 fn ref_path_len(r: &RouteSpec) -> usize {
     ref_hops(r).iter().map(|h| match h {
         HopSpec::Asn(_) => 1,
-        HopSpec::Seg('S', _) => 1,
-        HopSpec::Seg('Q', asns) => asns.len(),
-        _ => 0,
+        h => match h.seg() { Some(('S', _)) => 1, Some(('Q', asns)) => asns.len(), _ => 0 },
     }).sum()
 }
 /// 9.1.2.2 (c) neighborAS: the leftmost AS of the AS_PATH when the path starts
@@ -252,7 +281,7 @@ fn ref_path_len(r: &RouteSpec) -> usize {
 fn ref_neighbour(r: &RouteSpec) -> u32 {
     match ref_hops(r).first() {
         Some(HopSpec::Asn(a)) => *a,
-        Some(HopSpec::Seg('Q', asns)) if !asns.is_empty() => asns[0],
+        Some(h) => match h.seg() { Some(('Q', asns)) if !asns.is_empty() => asns[0], _ => r.lasn },
         _ => r.lasn,
     }
 }
@@ -267,7 +296,7 @@ pub fn ref_eligible(r: &RouteSpec) -> bool {
     matches!(r.origin, Slot::Val(_)) && matches!(r.path, Slot::Val(_))
         && (r.ibgp || match ref_hops(r).first() {
             Some(HopSpec::Asn(_)) => true,
-            Some(HopSpec::Seg('Q', asns)) => !asns.is_empty(),
+            Some(h) => matches!(h.seg(), Some(('Q', asns)) if !asns.is_empty()),
             _ => false,
         })
 }
@@ -354,6 +383,14 @@ pub fn random_route(rng: &mut Rng) -> RouteSpec {
             3 if rng.chance(1, 3) => HopSpec::Seg('Q', (0..rng.usize(1, 3)).map(|_| asn(rng)).collect()),
             _ => HopSpec::Asn(asn(rng)),
         });
+        // the same segment as a two-octet session delivers it
+        if let Some(HopSpec::Seg(c, a)) = hops.last() {
+            if rng.chance(1, 2) && a.iter().all(|x| *x <= 65535) {
+                let (c, mut a) = (c.to_ascii_lowercase(), a.clone());
+                if c == 'q' { for _ in 0..rng.usize(0, 4) { a.push(*rng.pick(&[10u32, 20, 30, 65000])); } }
+                *hops.last_mut().unwrap() = HopSpec::Seg(c, a);
+            }
+        }
     }
     let opt = |rng: &mut Rng, p: u64| if rng.chance(p, 4) { Some(small(rng)) } else { None };
     let r = RouteSpec {
@@ -385,7 +422,7 @@ impl Prop for C10 {
         let e = [false]; let ei = [false, true];
         let n = [None]; let id1 = [(None, 5u32)]; let p1 = [(false, 0x0a000001u128)];
         // ---- construction: every combination of presence of ORIGIN / AS_PATH / neighbour, both sources
-        for src in ["e", "i"] { for path in ["-", "!", "e", "10.20", "S10+20.30", "C10.20", "D10", "Q10+20.30", "10"] {
+        for src in ["e", "i"] { for path in ["-", "!", "e", "10.20", "S10+20.30", "C10.20", "D10", "Q10+20.30", "10", "q10+20.30", "q10", "s10.20", "c10", "d10"] {
             for origin in ["-", "!", "0", "2", "7"] { for s in STRATS {
                 v.push(format!("try {} {},-,-,{},{},-,65000,-,5,-,4:1,0", s, src, path, origin));
             } }
@@ -393,7 +430,9 @@ impl Prop for C10 {
         for s in STRATS { for src in ["e", "i"] { v.push(format!("wire-malformed {} {}", s, src)); } }
         // ---- hop_count_path_selection / neighbor_path_selection
         for p in ["e", "10", "10.20.30", "S10+20", "S", "S10.20", "10.S20+30.40", "C10+20.30", "D10+20.30", "C10.D20.S30.40",
-                  "Q10+20", "Q10+20.30", "30.Q10+20", "10.10.10.10", "C", "D"] {
+                  "Q10+20", "Q10+20.30", "30.Q10+20", "10.10.10.10", "C", "D",
+                  "q10", "q10+20", "q10+20+30", "q10+20+30+40+50.60", "30.q10+20", "q10+20.Q30+40", "s10+20", "s", "c10+20.30", "d10+20.30",
+                  "s10+20.q30+40+50", "q65535+1.2"] {
             v.push(format!("hops {}", p));
         }
         // ---- exhaustive lattices, all ordered pairs (incl. a route with itself)
@@ -547,7 +586,7 @@ impl Prop for C10 {
                 let a = parse_route(&format!("i,-,-,{},0,-,1,-,1,-,4:1,0", p)).unwrap();
                 let want_n = match ref_hops(&a).first() {
                     Some(HopSpec::Asn(x)) => x.to_string(),
-                    Some(HopSpec::Seg('Q', asns)) if !asns.is_empty() => asns[0].to_string(),
+                    Some(h) => match h.seg() { Some(('Q', asns)) if !asns.is_empty() => asns[0].to_string(), _ => "-".to_string() },
                     _ => "-".to_string(),
                 };
                 let want = format!("{} {}", ref_path_len(&a), want_n);
